@@ -1136,6 +1136,231 @@ theorem isEnsembl_stripSuffix {s : Name} (h : isEnsembl s = true) :
     simp [hl, hDne]
   next => cases h
 
+/-! ### zero fits every rung -/
+
+theorem ladder_contains_zero :
+    (Generated.intLadder.all (fun r => decide (r.2.1 ≤ 0) && decide (0 ≤ r.2.2)) = true) ∧
+    Generated.intLadderDefault.2.1 ≤ 0 ∧ 0 ≤ Generated.intLadderDefault.2.2 := by
+  decide +kernel
+
+theorem chooseIntDtypeMode_mem (mode : CompareMode) (fb : Option Nat) (mn mx : Rat) :
+    chooseIntDtypeMode mode fb mn mx ∈ Generated.intLadder ∨
+      chooseIntDtypeMode mode fb mn mx = Generated.intLadderDefault := by
+  unfold chooseIntDtypeMode
+  split
+  · next r h => exact Or.inl (List.mem_of_find?_eq_some h)
+  · exact Or.inr rfl
+
+theorem castTo_zero {r : Rung} (h : r.2.1 ≤ 0 ∧ 0 ≤ r.2.2) : castTo r 0 = some 0 := by
+  have h0 : roundHalfEven 0 = 0 := round_int 0
+  unfold castTo
+  simp only [h0]
+  rw [if_pos h]
+
+/-! ### the one refusal of the gene mapper -/
+
+theorem mapGenes_error_iff (lookup : List (Name × Name)) (ph : Nat → Name) (start : Nat)
+    (genes : List Name) (e : VErr) :
+    mapGenes lookup ph start genes = .error e ↔
+      e = .allUnmappable ∧ genes ≠ [] ∧ ∀ g ∈ genes, isUnknown lookup g = true := by
+  obtain ⟨_, _, i3⟩ := foldl_mapStep lookup ph genes ⟨[], start, 0, 0, 0⟩
+  simp only [Nat.zero_add] at i3
+  have hall : genes.countP (isUnknown lookup) = genes.length ↔
+      ∀ g ∈ genes, isUnknown lookup g = true := List.countP_eq_length
+  unfold mapGenes
+  by_cases he : genes.isEmpty = true
+  · rw [if_pos he]
+    have : genes = [] := by simpa using he
+    simp [this]
+  · rw [if_neg he]
+    have hne : genes ≠ [] := by simpa using he
+    have hpos : 0 < genes.length := List.length_pos_iff.2 hne
+    simp only []
+    rw [i3]
+    split
+    next hc =>
+      constructor
+      · intro h; cases h; exact ⟨rfl, hne, hall.1 hc.2⟩
+      · rintro ⟨rfl, _, _⟩; rfl
+    next hc =>
+      constructor
+      · intro h; cases h
+      · rintro ⟨_, _, hu⟩
+        exfalso; apply hc
+        have := hall.2 hu
+        exact ⟨by omega, this⟩
+
+
+/-! ### every way `validate` can fail -/
+
+theorem runMinMax_error {chunks : List (List Rat)} {e : VErr} :
+    ∀ {acc : Option (Rat × Rat)}, runMinMax acc chunks = .error e → e = .emptyMatrix := by
+  induction chunks with
+  | nil => intro acc h; cases h
+  | cons ch rest ih =>
+    intro acc h
+    unfold runMinMax at h
+    split at h
+    · split at h
+      · exact ih h
+      · exact ih h
+    · cases h; rfl
+
+theorem storage_minmax_error {st : Storage} {e : VErr} (h : st.minmax = .error e) :
+    e = .emptyMatrix := by
+  cases st with
+  | dense m nCols ch =>
+    simp only [Storage.minmax, minmaxDense] at h
+    cases ch with
+    | none => exact runMinMax_error h
+    | some c => exact runMinMax_error h
+  | sparse d ch =>
+    simp only [Storage.minmax, minmaxSparse] at h
+    split at h
+    · cases h
+    · cases ch with
+      | none => exact runMinMax_error h
+      | some c => exact runMinMax_error h
+
+theorem minmaxUsed_error {inp : Input} {e : VErr} (h : minmaxUsed inp = .error e) :
+    e = .emptyMatrix := by
+  unfold minmaxUsed at h
+  split at h
+  · exact storage_minmax_error h
+  · cases h
+
+theorem mapGeneIdsInVar_error_iff (lookup : List (Name × Name)) (ph : Nat → Name) (start : Nat)
+    (genes : List Name) (e : VErr) :
+    mapGeneIdsInVar lookup ph start genes = .error e ↔ mapGenes lookup ph start genes = .error e := by
+  unfold mapGeneIdsInVar
+  split
+  next e' h => rw [h]; constructor <;> (intro h'; cases h'; rfl)
+  next o h =>
+    rw [h]
+    constructor
+    · intro h'; split at h' <;> cases h'
+    · intro h'; cases h'
+
+theorem validate_mapError {ph : Nat → Name} {inp : Input} {e : VErr}
+    (h0 : hasDup inp.cellIds = false) (h1 : hasDup inp.genes = false) (h2 : [] ∉ inp.genes)
+    (hm : mapGeneIdsInVar inp.lookup ph inp.start inp.genes = .error e) :
+    validate ph inp = .error e := by
+  unfold validate
+  simp only [checkCellIds_ok h0, checkGeneNames_ok h1 h2, hm]
+
+theorem validate_minmaxError {ph : Nat → Name} {inp : Input} {mv : Option (List Name)} {k : Nat}
+    (h0 : hasDup inp.cellIds = false) (h1 : hasDup inp.genes = false) (h2 : [] ∉ inp.genes)
+    (hm : mapGeneIdsInVar inp.lookup ph inp.start inp.genes = .ok (mv, k))
+    (hmm : minmaxUsed inp = .error .emptyMatrix ∨ minmaxUsed inp = .ok none) :
+    validate ph inp = .error .emptyMatrix := by
+  rcases hmm with hmm | hmm
+  · have hmm' : (if (inp.expectedMax.isSome ||
+        inp.roundToInt && !(inp.intDtype || isIntegersChunked inp.eps inp.storage.readChunks)) = true
+      then inp.storage.minmax else Except.ok (some (0, 0))) = .error .emptyMatrix := hmm
+    unfold validate
+    simp only [checkCellIds_ok h0, checkGeneNames_ok h1 h2, hm, hmm']
+  · have hmm' : (if (inp.expectedMax.isSome ||
+        inp.roundToInt && !(inp.intDtype || isIntegersChunked inp.eps inp.storage.readChunks)) = true
+      then inp.storage.minmax else Except.ok (some (0, 0))) = .ok none := hmm
+    unfold validate
+    simp only [checkCellIds_ok h0, checkGeneNames_ok h1 h2, hm, hmm']
+
+theorem validate_ok_of {ph : Nat → Name} {inp : Input} {mv : Option (List Name)} {k : Nat}
+    {mn mx : Rat}
+    (h0 : hasDup inp.cellIds = false) (h1 : hasDup inp.genes = false) (h2 : [] ∉ inp.genes)
+    (hm : mapGeneIdsInVar inp.lookup ph inp.start inp.genes = .ok (mv, k))
+    (hmm : minmaxUsed inp = .ok (some (mn, mx)))
+    (hd : ∀ m, mv = some m → hasDup m = false) :
+    ∃ plan, validate ph inp = .ok plan := by
+  have hmm' : (if (inp.expectedMax.isSome ||
+        inp.roundToInt && !(inp.intDtype || isIntegersChunked inp.eps inp.storage.readChunks)) = true
+      then inp.storage.minmax else Except.ok (some (0, 0))) = .ok (some (mn, mx)) := hmm
+  unfold validate
+  simp only [checkCellIds_ok h0, checkGeneNames_ok h1 h2, hm, hmm']
+  cases mv with
+  | none => split <;> exact ⟨_, rfl⟩
+  | some m =>
+    simp only [hd m rfl, Option.isSome_some, Bool.or_true, Bool.true_or, if_true,
+      Bool.false_eq_true, if_false]
+    exact ⟨_, rfl⟩
+
+/-- every way `validate` can fail, in the order of the source -/
+theorem validate_error_iff (ph : Nat → Name) (inp : Input) (e : VErr) :
+    validate ph inp = .error e ↔
+      (e = .dupCellIds ∧ hasDup inp.cellIds = true) ∨
+      (e = .badGeneNames ∧ hasDup inp.cellIds = false ∧
+        (hasDup inp.genes = true ∨ [] ∈ inp.genes)) ∨
+      (e = .allUnmappable ∧ hasDup inp.cellIds = false ∧ hasDup inp.genes = false ∧
+        [] ∉ inp.genes ∧ inp.genes ≠ [] ∧ ∀ g ∈ inp.genes, isUnknown inp.lookup g = true) ∨
+      (e = .emptyMatrix ∧ hasDup inp.cellIds = false ∧ hasDup inp.genes = false ∧
+        [] ∉ inp.genes ∧ (∃ mv k, mapGeneIdsInVar inp.lookup ph inp.start inp.genes = .ok (mv, k)) ∧
+        (minmaxUsed inp = .error .emptyMatrix ∨ minmaxUsed inp = .ok none)) ∨
+      (e = .dupMapped ∧ hasDup inp.cellIds = false ∧ hasDup inp.genes = false ∧
+        [] ∉ inp.genes ∧ ∃ m k mn mx,
+          mapGeneIdsInVar inp.lookup ph inp.start inp.genes = .ok (some m, k) ∧
+          minmaxUsed inp = .ok (some (mn, mx)) ∧ hasDup m = true) := by
+  constructor
+  · intro h
+    cases hc : hasDup inp.cellIds
+    case true =>
+      rw [validate_dupCells hc] at h; cases h; exact Or.inl ⟨rfl, rfl⟩
+    case false =>
+    by_cases hg : hasDup inp.genes = true ∨ [] ∈ inp.genes
+    · rw [validate_badGenes hc hg] at h; cases h; exact Or.inr (Or.inl ⟨rfl, rfl, hg⟩)
+    · have hg1 : hasDup inp.genes = false := by
+        cases h' : hasDup inp.genes
+        · rfl
+        · exact absurd (Or.inl h') hg
+      have hg2 : [] ∉ inp.genes := fun h' => hg (Or.inr h')
+      cases hm : mapGeneIdsInVar inp.lookup ph inp.start inp.genes with
+      | error e' =>
+        rw [validate_mapError hc hg1 hg2 hm] at h
+        cases h
+        obtain ⟨rfl, hne, hall⟩ :=
+          (mapGenes_error_iff _ _ _ _ _).1 ((mapGeneIdsInVar_error_iff _ _ _ _ _).1 hm)
+        exact Or.inr (Or.inr (Or.inl ⟨rfl, rfl, hg1, hg2, hne, hall⟩))
+      | ok pr =>
+        obtain ⟨mv, k⟩ := pr
+        cases hmm : minmaxUsed inp with
+        | error e' =>
+          have := minmaxUsed_error hmm
+          subst this
+          rw [validate_minmaxError hc hg1 hg2 hm (Or.inl hmm)] at h
+          cases h
+          exact Or.inr (Or.inr (Or.inr (Or.inl ⟨rfl, rfl, hg1, hg2, ⟨mv, k, rfl⟩, Or.inl rfl⟩)))
+        | ok r =>
+          cases r with
+          | none =>
+            rw [validate_minmaxError hc hg1 hg2 hm (Or.inr hmm)] at h
+            cases h
+            exact Or.inr (Or.inr (Or.inr (Or.inl ⟨rfl, rfl, hg1, hg2, ⟨mv, k, rfl⟩, Or.inr rfl⟩)))
+          | some p =>
+            obtain ⟨mn, mx⟩ := p
+            by_cases hd : ∀ m, mv = some m → hasDup m = false
+            · obtain ⟨plan, hp⟩ := validate_ok_of hc hg1 hg2 hm hmm hd
+              rw [hp] at h; cases h
+            · have : ∃ m, mv = some m ∧ hasDup m = true := by
+                cases mv with
+                | none => exact absurd (fun m hm' => by cases hm') hd
+                | some m =>
+                  refine ⟨m, rfl, ?_⟩
+                  cases hdm : hasDup m
+                  · exact absurd (fun m' hm' => by cases hm'; exact hdm) hd
+                  · rfl
+              obtain ⟨m, rfl, hdm⟩ := this
+              rw [validate_dupMapped hc hg1 hg2 hm hdm hmm] at h
+              cases h
+              exact Or.inr (Or.inr (Or.inr (Or.inr
+                ⟨rfl, rfl, hg1, hg2, m, k, mn, mx, rfl, rfl, hdm⟩)))
+  · rintro (⟨rfl, hc⟩ | ⟨rfl, hc, hg⟩ | ⟨rfl, hc, hg1, hg2, hne, hall⟩ |
+      ⟨rfl, hc, hg1, hg2, ⟨mv, k, hm⟩, hmm⟩ | ⟨rfl, hc, hg1, hg2, m, k, mn, mx, hm, hmm, hd⟩)
+    · exact validate_dupCells hc
+    · exact validate_badGenes hc hg
+    · exact validate_mapError hc hg1 hg2 ((mapGeneIdsInVar_error_iff _ _ _ _ _).2
+        ((mapGenes_error_iff _ _ _ _ _).2 ⟨rfl, hne, hall⟩))
+    · exact validate_minmaxError hc hg1 hg2 hm hmm
+    · exact validate_dupMapped hc hg1 hg2 hm hd hmm
+
 /-! ### a small example input -/
 
 /-- example input used by the non-vacuity examples of `CTM.Props.C16` -/
